@@ -116,6 +116,11 @@ func dot(k string) string {
 }
 
 func checkC06(c *Ctx) {
+	// the SignedData an independent verifier must accept is the one SignPKCS7 emits (shared with C05)
+	checkC05(c)
+	// the prepared update can be encoded any number of times: encoding it does not consume it
+	c.rulePure([]string{"efi/signature.(efibytes).Marshal", "efi/signature.(efibytes).Bytes", "efi/signature.(*EFIVariableAuthentication2).Marshal"})
+	c.R.Floor("E.pure", 3)
 	utilP := M + "/efi/util"
 	// ---- I1: UTC
 	timeGetters := map[string]bool{"time.Time.Year": true, "time.Time.Month": true, "time.Time.Day": true, "time.Time.Hour": true, "time.Time.Minute": true, "time.Time.Second": true,
